@@ -50,7 +50,8 @@ NoKV == [k \in Keys |-> NoRd]
 (* bad: "" = honest; "amount" = every input cites one unit less than the output it spends really holds (outputs sum
    to the cited total): such a transaction is never current (CheckInputEqualOutput compares cited and stored amount);
    "sum" = inputs and outputs of different sums; "dupin" = the same output listed twice as input; "coinbase" = the
-   spend is folded into the coinbase of the block that lists it.  None of these is ever admissible. *)
+   spend is folded into the coinbase of the block that lists it; "blind" = a key is written that is not among the
+   declared reads.  None of these is ever admissible. *)
 (* big: the transaction carries a 300 KB description (block size limit, C13) *)
 Tok(ins, outs) == [ins |-> ins, outs |-> outs, reads |-> NoKV, writes |-> NoKV, bad |-> "", big |-> FALSE]
 TokBad(ins, outs, bad) == [ins |-> ins, outs |-> outs, reads |-> NoKV, writes |-> NoKV, bad |-> bad, big |-> FALSE]
@@ -76,6 +77,7 @@ TX == [
   p8 |-> KV([k \in Keys |-> IF k = "k1" THEN "p2" ELSE "p7"], R2("w2")),  \* reads two keys, writes one
   p9 |-> KV([k \in Keys |-> None], [k \in Keys |-> IF k = "k1" THEN "x1" ELSE "x2"]),   \* creates both keys (k2 is its 2nd write)
   p10 |-> KV(R2("p9"), R2("x3")),                                      \* overwrites k2 (written at another offset by p9)
+  p11 |-> [KV(NoKV, R1("z1")) EXCEPT !.bad = "blind"],                 \* writes k1 without declaring a read of it (xmodel verifyOutputs)
   w1 |-> TokBad({<<"g", 0>>}, <<O("c", 10)>>, "amount"),              \* cites 9 for g.0, which holds 10 (outputs = what it really holds)
   w2 |-> TokBad({<<"g", 1>>}, <<O("c", 7)>>, "sum"),                   \* outputs (7) exceed the input (g.1 holds 6): creates a token
   w3 |-> TokBad({<<"g", 1>>}, <<O("c", 12)>>, "dupin"),                \* lists g.1 twice (cites 6 + 6, outputs 12)
